@@ -78,7 +78,7 @@ PROPS = {
         "not_decided": ["element-for-element equality of values, NaN/ZST/extreme values, panics inside std", "lossy integer narrowing of values that the writer and the reader side both derive from one source (seeded change C01_d2: Huffman encode table narrowed to u32 codes; whether a value fits is value-level)", COMMON_ND],
     },
     "C02": {
-        "rules": [A.r_append, A.r_freeze, A.r_foreign_writers, A.r_reject_stored, I.r_concat, CO.r_collapse_push],
+        "rules": [A.r_append, A.r_freeze, A.r_foreign_writers, A.r_reject_stored, I.r_concat, CO.r_collapse_push, HF.r_chunk],
         "thorough": [X.witness("C02")],
         "explanation": "Every body reachable from the write/reserve API (closures and local helpers included) is scanned for destructive, clearing or replacing effects on item storage; the one Vec::pop is justified by R-PEEL; the representation switches are guarded (R-GUARD).",
         "decided": [
@@ -86,6 +86,7 @@ PROPS = {
             "R-PEEL: the Huffman partial-byte pop happens only when the cursor is unaligned, the byte is re-presented to the encoder and re-emitted",
             "R-GUARD: IndexList writes smol only while chonk is empty; IndexOptimized writes strided only while nothing spilled",
             "CollapseSequence's collapse path performs no write",
+            "R-CHUNK: the reader of a bit-packed item never advances past the item's own end bit (bits beyond it belong to later pushes: what an earlier index reads would change when they are written)",
         ],
         "not_decided": ["that Stride's in-place state transition preserves earlier elements (value-level; C05; seeded change C02_f1, a merged Striding/Saturated variant that resumes striding after saturation, is not detected)", "bit arithmetic of the Huffman cursor", COMMON_ND],
     },
@@ -105,7 +106,7 @@ PROPS = {
     },
     "C04": {
         "rules": [S.r_unsafe, S.r_strwrite, only(BR.r_bracket, {"OwnedRegion", "ConsecutiveIndexPairs"}),
-                  BR.r_reader_writer, CD.r_tags, CD.r_bitmap, CD.r_literal_guard, L.r_clone, A.r_freeze, A.r_foreign_writers, L.r_reserve_only, L.r_reset],
+                  BR.r_reader_writer, CD.r_tags, CD.r_bitmap, CD.r_literal_guard, L.r_clone, A.r_freeze, A.r_foreign_writers, L.r_reserve_only, L.r_reset, X.r_iter_readitems],
         "thorough": [X.witness("C04")],
         "explanation": "Program-text property: inventory of unchecked str constructions and of everything that can write StringRegion's byte region, over the type-checked crate.",
         "decided": [
@@ -115,17 +116,19 @@ PROPS = {
             "byte offsets are push boundaries: R-BRACKET for OwnedRegion and ConsecutiveIndexPairs, R-READER for every bracket-indexed index(); dictionary reader/writer tables agree (R-TAGS/R-BITMAP/R-GUARD), so a decoded entry is a whole pushed string",
             "R-CLONE: hand-written clone/clone_from of every region and offset container copy every field on every path (a copy with stale offsets would cut a string in the middle of a character)",
             "R-GUARD / R-RESERVE-ONLY: the offset containers behind ConsecutiveIndexPairs keep push order (a re-ordered offset cuts a string inside a character), and reserve paths never replace a codec or storage that already holds strings",
+            "R-ITER: the row iterator of a columns region pairs every cell index with its own column, also when stepped from the back (an index applied to another column's bytes cuts a string at a foreign offset)",
             "R-RESET: clear() resets every field of the codec behind a string region (a dictionary whose writer table survives clear stores tag bytes the empty reader table returns verbatim)"],
         "not_decided": ["that the inner byte region returns exactly the pushed byte range (C01/C02 clauses)", "deserialising foreign data", "capacity limits inside the dictionary's tables (seeded change C04_f2: 16-bit offsets in BytesMap silently drop entries the writer table still uses)"],
     },
     "C05": {
-        "rules": [I.r_ovf, I.r_panic_edges, I.r_nowrite_on_reject, A.r_freeze, A.r_foreign_writers, A.r_reject_stored, I.r_concat, I.r_stride_iter,
+        "rules": [I.r_ovf, I.r_panic_edges, I.r_nowrite_on_reject, I.r_len_step, A.r_freeze, A.r_foreign_writers, A.r_reject_stored, I.r_concat, I.r_stride_iter,
                   B.r_bound_stride_sites, B.r_index_failstop, only(L.r_reset, {"Stride", "IndexList", "IndexOptimized"}), only(L.r_clone, INDEX_ONLY)],
         "explanation": "Overflow-checked arithmetic is visible in MIR as Assert(Overflow) terminators; taint from pushed values is propagated through the Stride state; the representation order of the two-level containers is checked for agreement between push, index, len, is_empty, iter and clear.",
         "decided": [
             "R-OVF: no overflow-checked arithmetic on a pushed value in the write path (build-profile independence, no panic), except stride*(count-1) = last accepted element",
             "R-PANIC: the only other panic edges in the write paths are usize->u64 conversions",
             "R-NOWRITE-ON-REJECT: Stride::push writes nothing on a path that returns false",
+            "R-LEN-STEP: every state write of Stride::push (whole-state assignment or in-place field update) leaves a state whose Stride::len, evaluated as a linear form per variant, is the dominated source state's len plus one",
             "R-GUARD / R-CONCAT / R-ITER: first/second order agreement of IndexList and IndexOptimized across push, index, len, is_empty, iter, next, clear",
             "R-BOUND: every Stride::index call site is strictly guarded by Stride::len",
             "R-CLONE for the index containers: a hand-written clone/clone_from copies every field on every path"],
@@ -146,11 +149,11 @@ PROPS = {
             "R-CHUNK: every advance of BitIterator's cursor is bounded by the bits that remain in the item (min(.., end - cursor), exactly end - cursor, or a dominating comparison that implies it)",
             "R-TAIL: every panic of Decoder::next is dominated by a still-valid test that undecoded bits remain (an item whose input is used up ends the iteration in every arm of the end-of-input match; found the >= 512-symbol / empty-alphabet decode panic, fixed in /repo)",
             "R-CLONE for HuffmanContainer: clone_from copies the code, the bytes and the bit cursor (component by component where it takes the encoded state apart)"],
-        "not_decided": ["exact decode at every bit alignment (bit arithmetic of Encoder / Decoder and the shift/mask of BitIterator; only the cursor bound of BitIterator is decided, R-CHUNK), code optimality, >= 1 bit per symbol (the single-symbol alphabet hangs/panics: observed, not decidable here)", COMMON_ND],
+        "not_decided": ["exact decode at every bit alignment (bit arithmetic of Encoder / Decoder and the shift/mask of BitIterator; only the cursor bound of BitIterator is decided, R-CHUNK), code optimality (seeded change C06_g1, a two-queue tree construction that merges the wrong pair, yields a valid but longer prefix code and is not detected), >= 1 bit per symbol (the single-symbol alphabet hangs/panics: observed, not decidable here)", COMMON_ND],
     },
     "C07": {
         "rules": [CD.r_literal_guard, CD.r_emptiness, CD.r_tags, CD.r_bitmap, CD.r_stats,
-                  only(L.r_reset, CODEC_ONLY | {"DictionaryCodec"}), only(L.r_fresh, CODEC_ONLY), CD.r_dedup],
+                  only(L.r_reset, CODEC_ONLY | {"DictionaryCodec"}), only(L.r_fresh, CODEC_ONLY), CD.r_dedup, L.r_reserve_only, CD.r_update_weight],
         "explanation": "Reader/writer table agreement and guard placement of the dictionary codec are decided on the MIR; selection quality of the heavy hitters is not.",
         "decided": [
             "R-GUARD: the literal store is reachable only over an edge that saw an empty input or an unassigned first byte in the reader's table",
@@ -159,6 +162,8 @@ PROPS = {
             "R-BITMAP: recording and testing the first-byte bitmap use the same word/bit functions",
             "R-STATS: every accepted input (tag hit or literal) enters the heavy-hitter summary and the first-byte bitmap",
             "dictionary hit stores exactly the tag byte; CodecRegion::clear resets the codec; merge_regions builds it via Codec::new_from",
+            "R-RESERVE-ONLY: reserve paths never train, replace or reset the codec (a codec swapped in by reserve_regions re-interprets the bytes already stored and refuses inputs the untrained region accepts)",
+            "R-WEIGHT: every path of the heavy-hitter summary's update that changes a weight adds the caller's count (a fast path that adds a constant under-counts run-length updates)",
             "R-DEDUP: a Vec::dedup_by closure that merges duplicates writes into the element dedup_by keeps (its second parameter); zero instances on the pinned tree, exercised by seeded change C07_c1",
         ],
         "not_decided": ["heavy-hitter selection quality, Misra-Gries arithmetic (seeded change C07_e2, a merged summary seeded from a clone of the first source whose capacity is too small, is not detected)", COMMON_ND],
@@ -178,40 +183,46 @@ PROPS = {
     "C10": {
         "rules": [L.r_reserve_only, L.r_fresh, L.r_seed,
                   todo({"reserve_items", "reserve_regions", "merge_regions", "reserve", "with_capacity"}),
-                  CD.r_tags, CD.r_bitmap, HF.r_code_source, CD.r_stats],
+                  CD.r_tags, CD.r_bitmap, HF.r_code_source, CD.r_stats, c06_peel],
         "explanation": "Reserve paths may only read/measure/reserve; merged regions are built from empty-sized constructors and seeded like default().",
         "decided": ["R-RESERVE-ONLY", "R-FRESH", "R-SEED", "R-TODO", "for the dictionary-coded region, the merged codec's reader and writer tables agree (R-TAGS/R-BITMAP)",
+            "R-PEEL: in the encoded state a merged Huffman region is in from its first push, the partial last byte is popped, re-presented and re-emitted together with the new symbols on every path (an early return between the pop and the re-emit loses the tail of the previous item)",
             "R-STATS: every input a merged codec accepts enters the statistics the next merge generation is built from (a dictionary hit that is not recorded lets a successor region assign that leading byte as a tag and refuse inputs the default region accepts)"],
         "not_decided": ["capacity amounts (C17)"],
     },
     "C11": {
         "rules": [CO.r_collapse_push, only(L.r_reset, CS_ONLY), only(L.r_fresh, CS_ONLY), L.r_clone,
-                  only(SD.r_serde, CS_ONLY)],
+                  only(SD.r_serde, CS_ONLY), L.r_reserve_only],
         "explanation": "The collapse decision and the lifecycle of last_index are path properties of one small function and five lifecycle methods.",
         "decided": ["R-COLLAPSE: early return only on the equality-true edge against inner.index(last_index), writes nothing; otherwise one inner.push whose result is remembered and returned",
-                    "last_index is None after default/merge_regions/clear, copied by clone/clone_from (R-CLONE for every region it can be nested in), serialised"],
+                    "last_index is None after default/merge_regions/clear, copied by clone/clone_from (R-CLONE for every region it can be nested in), serialised",
+                    "R-RESERVE-ONLY: reserve paths only measure and reserve; in particular they do not forget the remembered last item (a reserve in the middle of a run of equal items would store the item again)"],
         "not_decided": ["properties of the user's PartialEq (NaN-like values)"],
     },
     "C12": {
         "rules": [only(BR.r_bracket, DENSE_ONLY), only(L.r_seed, DENSE_ONLY), only(L.r_reset, DENSE_ONLY),
                   BR.r_reader_writer, BR.r_columns, only(A.r_append, DENSE_ONLY), only(L.r_fresh, DENSE_ONLY),
-                  BR.r_bracket, A.r_freeze, A.r_foreign_writers, A.r_reject_stored, I.r_concat, only(L.r_clone, DENSE_ONLY), O.r_onto],
+                  BR.r_bracket, A.r_freeze, A.r_foreign_writers, A.r_reject_stored, I.r_concat, only(L.r_clone, DENSE_ONLY), O.r_onto, I.r_len_step, X.r_iter_readitems],
         "explanation": "Dense indices follow from one append of the end offset per push, the seeded leading 0 and index(k) = (offsets[k], offsets[k+1]).",
         "decided": ["R-BRACKET with seed 1 for ConsecutiveIndexPairs", "R-SEED: exactly one leading 0 in default/merge_regions/clear", "R-READER: index(k) reads offsets k and k+1 in order",
                     "R-COLUMNS: ColumnsRegion returns the inner dense index unchanged, creates missing columns first, rows carry exactly their own index slice",
                     "R-APPEND/R-FRESH for the two types: no write or reserve path drops columns or offsets",
             "R-CLONE for the dense-index regions: a copy made by clone/clone_from carries every column and every offset (creation by copying counts as creation)",
-            "R-ONTO for the row read item: clone_onto forces the target to the row's own length"],
+            "R-ONTO for the row read item: clone_onto forces the target to the row's own length",
+            "R-ITER: iterating a row (from either end) pairs index i with column i",
+            "R-LEN-STEP: the stride form the offsets are stored in grows by exactly one position per accepted offset (a transition that grows it by two shifts every offset behind it, so index k no longer brackets the k-th item)"],
         "not_decided": ["that the inner region's ranges are contiguous (its own R-BRACKET instance)"],
     },
     "C13": {
         "rules": [B.r_bound_readitems, B.r_index_failstop, B.r_bound_stride_sites, X.r_iter_readitems,
-                  X.r_iter_positions, A.r_freeze, A.r_foreign_writers, X.r_exact_size, I.r_concat, I.r_stride_iter],
+                  X.r_iter_positions, A.r_freeze, A.r_foreign_writers, X.r_exact_size, I.r_concat, I.r_stride_iter,
+                  BR.r_reader_writer, only(L.r_clone, DENSE_ONLY), only(L.r_reset, DENSE_ONLY), FW.r_skip_take],
         "explanation": "Every positional access into shared storage must be dominated by a strict bound of the position against the item's own extent (the linear form len() returns).",
         "decided": ["R-BOUND for ReadSlice/ReadSliceInner/ReadColumns/ReadColumnsInner/FlatStack get", "len/is_empty agreement", "R-ITER: iteration covers start..end; every iterator method (next and specialisations) takes its positions from the underlying range iterator",
             "R-GUARD: the two-level offset containers that positional reads go through keep push order (the first level is written only while the second is empty), so position i of an item is never another item's element",
             "R-ITER (exact size): every local ExactSizeIterator impl is backed by a size_hint (or len) override taken from the underlying iterator; without one the provided len() panics on every call (found ReadSliceIter / ReadSliceIterInner, fixed in /repo eda620f)",
-            "R-CONCAT / R-ITER: len, is_empty and iteration of the index containers behind FlatStack::get agree with index() (is_empty looks at both levels; StrideIter yields strided.index(cursor))"],
+            "R-CONCAT / R-ITER: len, is_empty and iteration of the index containers behind FlatStack::get agree with index() (is_empty looks at both levels; StrideIter yields strided.index(cursor))",
+            "R-READER / R-CLONE / R-RESET for the dense-index regions: index(k) takes the item's extent from the offsets push stored for k, and every field that extent is computed from (cached offsets included) is copied by clone_from and reset by clear"],
         "not_decided": [COMMON_ND],
     },
     "C14": {
@@ -221,7 +232,7 @@ PROPS = {
         "decided": ["R-ONTO (every path overwrites the target and forces its length; no access bounded by the target's previous length)", "R-WHOLE", "R-REBORROW",
                     "region-to-region push: Push<ReadItem> impls forward / agree with their canonical siblings (R-FORWARD, R-SIBLING, R-BRACKET, R-HUFF-ARMS)",
             "R-CMP: the equality through which a copy is compared with its source decodes both sides (no representation-dependent early exit); skip-take as under C01"],
-        "not_decided": ["equality of the results"],
+        "not_decided": ["equality of the results", "memoised region-to-region copies (seeded change C14_g1: a memo of already copied items keyed by the target's instead of the source's index; which key identifies equal content is value-level, and a correct memo skips pushes just the same)"],
     },
     "C15": {
         "rules": [CMP.r_cmp, cmp_zip],
@@ -242,10 +253,14 @@ PROPS = {
         "assumptions": ["only meaningful in the serde feature configuration"],
     },
     "C17": {
-        "rules": [AL.r_cover_merge, AL.r_cover_reserve, AL.r_cover_reserve_vec, AL.r_reserve_items_agree, AL.r_reserve_exact_count, AL.r_noalloc, AL.r_reserve_no_truncation, AL.r_reserve_hint_lower, AL.r_reserve_additional],
+        "rules": [AL.r_cover_merge, AL.r_cover_reserve, AL.r_cover_reserve_vec, AL.r_reserve_items_agree, AL.r_reserve_exact_count, AL.r_noalloc, AL.r_reserve_no_truncation, AL.r_reserve_hint_lower, AL.r_reserve_additional, AL.r_reserve_cumulative, AL.r_capacity_uncapped, FW.r_skip_take],
         "explanation": "Pre-sizing must cover every storage field from the same-named field of the sources; push paths of non-coded regions build no temporaries and never exact-fit.",
         "decided": ["R-COVER(merge_regions)", "R-COVER(reserve_regions)", "R-RESERVE-ITEMS", "R-NOALLOC / R-AMORTISED",
-            "R-RESERVE-ITEMS (additional): no reserve amount contains the receiver's own length"],
+            "R-RESERVE-ITEMS (additional): no reserve amount contains the receiver's own length",
+            "R-RESERVE-ITEMS (un-stepped): an iterator of announced items that was advanced by hand is not handed to a child's reserve afterwards",
+            "R-COVER (uncapped): with_capacity / reserve / merge entry points pass the requested amount to the allocation call without a min/clamp cap",
+            "skip-take: a read item's element stream handed to reserve_items is not cut short by take(len).skip(start) / skip(start).take(end)",
+            "R-COVER (cumulative): no reserve path reserves one storage once per source in a loop with that source's size (reserve is relative to the current length: the calls do not add up)"],
         "not_decided": ["the amounts themselves, allocator call counts, the O(log n) bound"],
     },
     "C18": {
@@ -258,11 +273,12 @@ PROPS = {
     },
     "C19": {
         "rules": [c19_freeze, X.r_index_types, A.r_noheap_until_spill, only(BR.r_bracket, DENSE_ONLY),
-                  only(L.r_seed, DENSE_ONLY)],
+                  only(L.r_seed, DENSE_ONLY), only(L.r_reset, {"FlatStack"} | DENSE_ONLY | INDEX_ONLY), only(L.r_clone, INDEX_ONLY)],
         "explanation": "Cheapest-first order of the representations is a guard property; the zero-heap claim for Stride follows from its field types.",
         "decided": ["R-GUARD: the cheap representation is attempted whenever the expensive one is still empty, and the first spill happens only after that attempt failed",
                     "type inventory: Stride has only usize fields; IndexList stores u32 in S and u64 in L",
-                    "R-NOHEAP: the spill list gets no capacity before something spilled", "dense outward indices of ConsecutiveIndexPairs (R-BRACKET/R-SEED) keep FlatStack's own indices strided"],
+                    "R-NOHEAP: the spill list gets no capacity before something spilled", "dense outward indices of ConsecutiveIndexPairs (R-BRACKET/R-SEED) keep FlatStack's own indices strided",
+                    "R-RESET / R-CLONE: clear() resets the region together with the indices (dense indices restart at 0, so a refilled stack stays strided), and clone_from of the index containers copies both levels (a stale wide list left behind keeps every later index at 8 bytes)"],
         "not_decided": ["that Stride::push accepts every strided/saturated sequence (value-level; seeded change C19_e1, which rejects the repeated last element when the next step would overflow, is reported by C05's R-OVF only)"],
     },
     "C20": {
